@@ -32,6 +32,18 @@ def menu(rng, degenerate=None):
             T = rng.randint(1, 3)
             spec["Y"] = (np.outer(y, np.ones(T)) + np.array([[rng.gauss(0, 0.3) for _ in range(T)] for _ in range(len(y))])).tolist()
         specs.append(spec)
+        if sname == "MultiTaskBCD" or (sname == "GroupBCD" and pk == "WeightedGroupL2" and dname == "Quadratic"):
+            # a second instance where the working set stays smaller than the problem and the inner loop reaches its every-10-epochs
+            # check: many correlated features, p0 = 1, fix-point scores
+            n2, p2 = rng.randint(8, 12), rng.randint(10, 14)
+            X2, y2 = sl.make_problem(rng, n=n2, p=p2, kind="real")
+            X2[:, 1:] = X2[:, 1:] + 0.8 * X2[:, :1]
+            spec2 = dict(spec, ws_strategy="fixpoint", p0=1, seed=rng.randrange(10 ** 6), alpha_frac=0.02, tol=1e-12)
+            spec2["X"], spec2["y"] = X2.tolist(), y2.tolist()
+            if dname == "QuadraticMultiTask":
+                T2 = rng.randint(2, 3)
+                spec2["Y"] = (np.outer(y2, np.ones(T2)) + np.array([[rng.gauss(0, 0.5) for _ in range(T2)] for _ in range(n2)]) + X2[:, :T2]).tolist()
+            specs.append(spec2)
     return specs
 
 
@@ -82,7 +94,7 @@ def build(spec, sparse_X=False):
             pen, PP = sl.make_penalty(pk, rng, p, alpha, spec["positive"])
     knobs = dict(tol=spec["tol"])
     if sname in ("AndersonCD", "GroupBCD", "MultiTaskBCD"):
-        knobs.update(max_iter=30, max_epochs=200, p0=rng.choice([1, 10]), fit_intercept=fi, ws_strategy=spec["ws_strategy"])
+        knobs.update(max_iter=30, max_epochs=200, p0=spec.get("p0", rng.choice([1, 10])), fit_intercept=fi, ws_strategy=spec["ws_strategy"])
     elif sname in ("ProxNewton",):
         knobs.update(max_iter=20, p0=rng.choice([1, 10]), fit_intercept=fi, ws_strategy=spec["ws_strategy"])
     elif sname == "GroupProxNewton":
